@@ -163,8 +163,10 @@ func panicFrame(p string) string {
 }
 
 // check applies the oracle to one execution.
-func (e *explorer) check(x execResult) {
-	sched := fmt.Sprintf("scenario=%s yields=%v schedule(thread per point)=[%s] choices=%v", e.sc.name, e.yields, schedString(x.res.Points), choices(x.res.Points))
+func (e *explorer) check(x execResult) { e.check2(x, e.newRaceText(), "") }
+
+func (e *explorer) check2(x execResult, raceText, label string) {
+	sched := fmt.Sprintf("scenario=%s yields=%v schedule(thread per point)=[%s] choices=%v%s", e.sc.name, e.yields, schedString(x.res.Points), choices(x.res.Points), label)
 	if x.res.Diverged {
 		// harness error, not a violation
 		e.capped = true
@@ -184,7 +186,7 @@ func (e *explorer) check(x execResult) {
 			e.fail(fmt.Sprintf("%s/panic@%s", e.sc.name, panicFrame(p)), "thread %d panicked: %s — %s", i, firstLine(p), sched)
 		}
 	}
-	if rt := e.newRaceText(); rt != "" {
+	if rt := raceText; rt != "" {
 		k := raceKey(rt)
 		if k != "" {
 			e.fail(e.sc.name+"/"+k, "data race reported by the race detector in %s:\n%s", sched, clip(rt, 1200))
@@ -286,11 +288,18 @@ func runScenario(t *engine.T, sc scenario, yields bool, bound, maxExec int, budg
 		verifsync.TrackOnces(true)
 		defer verifsync.TrackOnces(false)
 	}
+	// cold execution: in a fresh worker process (every C20 case has its own) the very first use of every package-level
+	// singleton the scenario touches is made by the scenario's threads themselves, not by the main goroutine in the
+	// sequential reference run below -- a fast path in front of a sync.Once is only wrong before the Once has completed
+	// once in the process. Default (serial) schedule; judged as soon as the reference outputs are known.
+	cold := e.runOnce(nil)
+	coldRace := e.newRaceText()
 	ref := sc.setup()
 	for _, f := range ref.threads {
 		f()
 	}
 	e.expected = ref.outs
+	e.check2(cold, coldRace, " [first execution in a cold process]")
 	if os.Getenv("VERIF_C20_DEBUG") != "" {
 		fmt.Fprintf(os.Stderr, "DEBUG %s expected outs: %q\n", sc.name, ref.outs)
 	}
